@@ -407,6 +407,25 @@ func ruleIDHandling(c *chk.Ctx) {
 		bytes := map[int64]int64{}
 		ir.Instrs(f, func(ins ssa.Instruction) {
 			bo, ok := ins.(*ssa.BinOp)
+			// (a byte test written negatively — !(msg[0] != 'n' || …) — names the same byte)
+			if ok && bo.Op == token.NEQ {
+				if _, isLen := ir.LenOf(bo.X); isLen {
+					if k, isK := ir.ConstInt(bo.Y); isK && negatedLenTest(f, bo) {
+						lens = append(lens, k)
+					}
+					return
+				}
+				if u, isU := bo.X.(*ssa.UnOp); isU {
+					if ia, isIA := u.X.(*ssa.IndexAddr); isIA {
+						if idx, isC := ir.ConstInt(ia.Index); isC {
+							if k, isK := ir.ConstInt(bo.Y); isK && negatedByteTests(f) {
+								bytes[idx] = k
+							}
+						}
+					}
+				}
+				return
+			}
 			if !ok || bo.Op != token.EQL {
 				return
 			}
@@ -2272,4 +2291,68 @@ func derivesFromParam(v ssa.Value) bool {
 		}
 	}
 	return false
+}
+
+// negatedByteTests: every return of the predicate f that can be true is
+// reached only on the false outcomes of its `!=` byte tests (the tests are
+// used as refusals: a mismatch leads to false).
+func negatedByteTests(f *ssa.Function) bool {
+	ok := true
+	for _, r := range ir.Returns(f) {
+		v := ir.ReturnResult(r, 0)
+		vals := []ssa.Value{v}
+		var preds []*ssa.BasicBlock
+		if phi, isPhi := v.(*ssa.Phi); isPhi {
+			vals = phi.Edges
+			preds = phi.Block().Preds
+		}
+		for i, e := range vals {
+			if k, isK := e.(*ssa.Const); isK && k.Value != nil && k.Value.String() == "false" {
+				continue
+			}
+			conds := ir.CondsAt(r.Block())
+			if preds != nil {
+				conds = ir.EdgeConds(preds[i], v.(*ssa.Phi).Block())
+			}
+			for _, cd := range ir.NormConds(conds) {
+				if bo, isBO := cd.V.(*ssa.BinOp); isBO && bo.Op == token.NEQ && cd.Truth {
+					if u, isU := bo.X.(*ssa.UnOp); isU {
+						if _, isIA := u.X.(*ssa.IndexAddr); isIA {
+							ok = false // a true result although a byte differs
+						}
+					}
+				}
+			}
+		}
+	}
+	return ok
+}
+
+// negatedLenTest: the outcome "length differs" of test leads only to false
+// results of the predicate f.
+func negatedLenTest(f *ssa.Function, test *ssa.BinOp) bool {
+	for _, r := range ir.Returns(f) {
+		v := ir.ReturnResult(r, 0)
+		vals := []ssa.Value{v}
+		var preds []*ssa.BasicBlock
+		if phi, isPhi := v.(*ssa.Phi); isPhi {
+			vals = phi.Edges
+			preds = phi.Block().Preds
+		}
+		for i, e := range vals {
+			if k, isK := e.(*ssa.Const); isK && k.Value != nil && k.Value.String() == "false" {
+				continue
+			}
+			conds := ir.CondsAt(r.Block())
+			if preds != nil {
+				conds = ir.EdgeConds(preds[i], v.(*ssa.Phi).Block())
+			}
+			for _, cd := range ir.NormConds(conds) {
+				if cd.V == ssa.Value(test) && cd.Truth {
+					return false
+				}
+			}
+		}
+	}
+	return true
 }
